@@ -452,14 +452,15 @@ def summarise(d):
     qs = [list(q[:3]) for q in d["questions"]]
     opcode = (d["flags"] >> 11) & 0xF
     cut = d.get("cut")
-    nq = len(qs) if not (cut and cut[0] == "q") else cut[1]
+    # the first question that cannot be read: cut short, or a compression pointer that does not point backwards
+    nq = len(qs)
+    fails = False
+    if cut and cut[0] == "q":
+        nq, fails = cut[1], True
     for k, q in enumerate(d["questions"][:nq]):
         if len(q) > 3 and q[3] == 0x3FFF:
-            # BadPointer while reading question k
-            part = qs[:k]
-            if opcode == 5:
-                part = part[:1] if (part and part[0][1] not in (254, 255) and part[0][2] == 6) else []
-            return ("B", d["id"], d["flags"], 0, part, True)
+            nq, fails = k, True
+            break
     parsed = []
     if opcode == 5:
         # UpdateMessage._parse_rr_header, zone section: one SOA of a data class, else FormError
@@ -469,7 +470,7 @@ def summarise(d):
             parsed.append(q)
     else:
         parsed = qs[:nq]
-    if cut and cut[0] == "q":
+    if fails:
         return ("B", d["id"], d["flags"], 0, parsed, True)
     if opcode == 5 and not parsed and d.get("marker") is not None:
         return ("B", d["id"], d["flags"], 0, parsed, True)  # prerequisite RR without a zone
@@ -1593,6 +1594,13 @@ def gen_ddesc(rng, qd, idx):
             q = rng.choice(d["questions"])
             if len(q) == 3:
                 q.append(0x3FFF)  # a pointer that does not point backwards
+    # pointer questions: only after an uncompressed first question, and they decode to its name
+    for k, q in enumerate(d["questions"]):
+        if len(q) > 3 and q[3] == 12:
+            if k == 0 or len(d["questions"][0]) > 3:
+                del q[3]
+            else:
+                q[0] = list(d["questions"][0][0])
     cut = d.get("cut")
     if cut and cut[0] == "q" and (cut[1] >= len(d["questions"]) or cut[2] >= len(enc_question(d["questions"][cut[1]]))):
         d.pop("cut")
